@@ -26,6 +26,7 @@ type libFacts struct {
 	fieldLenGE   map[string]int64         // "pkg.Type.Field" -> every load has len >= k
 	nilOrLenGE   map[string]int64         // "pkg.Type.Field" -> nil, or len >= k (usable behind a non-nil test)
 	idxSummary   map[*ssa.Function]string // function -> field key: result is negative or a valid index into recv.field
+	idxWrapper   map[*ssa.Function]string // function (int, bool) -> field key: result 0 is such an index, result 1 says it is not negative
 	lenResultGE  map[*ssa.Function]int64  // function -> every returned slice/string has len >= k
 	fieldWriters map[string]map[*ssa.Function]bool
 }
@@ -86,6 +87,37 @@ func (lf *libFacts) install(bd *core.Bounds) {
 				if k, ok := lf.fieldLenGE[fkey(tn, f)]; ok {
 					if lt, off, ok := core.LenTerm(v); ok {
 						z.AddLE(core.Zero, lt, off-k)
+					}
+				}
+			}
+			if ex, isEx := v.(*ssa.Extract); isEx && ex.Index == 0 && lf.idxWrapper != nil {
+				if tc, isC := ex.Tuple.(*ssa.Call); isC {
+					if g := core.StaticCallee(tc); g != nil {
+						if fld, ok := lf.idxWrapper[g]; ok && len(tc.Call.Args) > 0 && !lf.fieldWriters[fld][fn] {
+							z.AddLE(core.Zero, core.ValTerm(ex), 1)
+							recv := tc.Call.Args[0]
+							for _, l := range vals {
+								u, ok := l.(*ssa.UnOp)
+								if !ok || u.Op != token.MUL {
+									continue
+								}
+								fa, ok := u.X.(*ssa.FieldAddr)
+								if !ok || fa.X != recv {
+									continue
+								}
+								if tn, f, ok := core.LoadedField(l); ok && fkey(tn, f) == fld {
+									if lt, off, ok := core.LenTerm(l); ok {
+										z.AddLE(core.ValTerm(ex), lt, off-1)
+									}
+								}
+							}
+							// behind the "found" result of the same call the index is not negative
+							for _, dc := range core.DominatingConds(before.Block()) {
+								if fx, ok := dc.Cond.(*ssa.Extract); ok && fx.Tuple == ex.Tuple && fx.Index == 1 && dc.Truth {
+									z.AddLE(core.Zero, core.ValTerm(ex), 0)
+								}
+							}
+						}
 					}
 				}
 			}
@@ -290,6 +322,52 @@ func buildLibFacts(w *core.World, r *core.Report, rule string) *libFacts {
 		if all && nIdx > 0 {
 			lf.idxSummary[fn] = fkey("cache.Cache", "Cache")
 			r.OK(rule, "summary: "+core.QName(fn)+" returns a negative constant or a valid frame number", fn.Pos(), "every return proved")
+		}
+	}
+	// wrappers: (index, found) where index is the result of a summarised function on the same
+	// receiver and found is "index is not -1"
+	lf.idxWrapper = map[*ssa.Function]string{}
+	for _, fn := range w.FuncsIn("cache") {
+		res := fn.Signature.Results()
+		if res.Len() != 2 || len(fn.Blocks) == 0 || fn.Signature.Recv() == nil {
+			continue
+		}
+		if bt, ok := res.At(1).Type().Underlying().(*types.Basic); !ok || bt.Kind() != types.Bool {
+			continue
+		}
+		okAll, n := true, 0
+		fld := ""
+		for _, in := range allInstrs(fn) {
+			ret, ok := in.(*ssa.Return)
+			if !ok {
+				continue
+			}
+			n++
+			c0, ok := core.Strip(ret.Results[0]).(*ssa.Call)
+			if !ok {
+				okAll = false
+				continue
+			}
+			g := core.StaticCallee(c0)
+			f0, isSum := lf.idxSummary[g]
+			if g == nil || !isSum || len(c0.Call.Args) == 0 || c0.Call.Args[0] != ssa.Value(fn.Params[0]) {
+				okAll = false
+				continue
+			}
+			fld = f0
+			bo, ok := core.Strip(ret.Results[1]).(*ssa.BinOp)
+			if !ok {
+				okAll = false
+				continue
+			}
+			x, op, k, ok := core.CmpConst(bo)
+			if !ok || core.Strip(x) != ssa.Value(c0) || !((op == token.NEQ && k == -1) || (op == token.GTR && k == -1) || (op == token.GEQ && k == 0)) {
+				okAll = false
+			}
+		}
+		if okAll && n > 0 && fld != "" {
+			lf.idxWrapper[fn] = fld
+			r.OK(rule, "summary: "+core.QName(fn)+" returns (frame number or -1, whether it is a frame number)", fn.Pos(), "wrapper of a summarised function")
 		}
 	}
 	return lf
